@@ -10,6 +10,7 @@
 //! `program.memory_regions` and `program.body_instructions()`), i.e. exactly what the type checker inspects.
 use quil_rs::expression::{Expression, ExpressionFunction, InfixOperator, PrefixOperator};
 use quil_rs::instruction::{
+    CalibrationDefinition, CalibrationIdentifier, CircuitDefinition, Jump, JumpWhen, Label, Offset, Sharing, Target,
     Arithmetic, ArithmeticOperand, ArithmeticOperator, BinaryLogic, BinaryOperand, BinaryOperator, Comparison,
     ComparisonOperand, ComparisonOperator, Convert, Declaration, Exchange, FrameIdentifier, Gate, Instruction, Load,
     Measurement, MemoryReference, Move, Pragma, Qubit, ScalarType, SetFrequency, SetPhase, SetScale, ShiftFrequency,
@@ -19,6 +20,7 @@ use quil_rs::program::type_check::{type_check, TypeError};
 use quil_rs::Program;
 use qvh::expr::*;
 use qvh::*;
+use std::str::FromStr;
 
 // ------------------------------------------------------------------ a small spec language for instructions
 // (the generator's own description, turned into real quil-rs instructions by `build`, optionally renamed)
@@ -44,7 +46,7 @@ enum Spec {
     Other(usize),
 }
 
-const N_OTHER: usize = 7;
+const N_OTHER: usize = 11;
 
 fn rename_rot(n: &str) -> String {
     match n {
@@ -72,8 +74,10 @@ fn rename_expr(e: &Expression, f: &dyn Fn(&str) -> String) -> Expression {
     }
 }
 
+/// the index is not the type checker's business (not even its range): vary it, including out-of-range values
 fn mref(name: &str, f: &dyn Fn(&str) -> String) -> MemoryReference {
-    MemoryReference { name: f(name), index: 0 }
+    const IDX: [u64; 6] = [0, 1, 2, 7, 1 << 32, u64::MAX];
+    MemoryReference { name: f(name), index: IDX[name.len() % IDX.len()] }
 }
 
 fn build(spec: &Spec, f: &dyn Fn(&str) -> String) -> Instruction {
@@ -134,7 +138,12 @@ fn build(spec: &Spec, f: &dyn Fn(&str) -> String) -> Instruction {
             // MEASURE into an undeclared region and CONVERT between mismatched types are NOT checked by type_check
             4 => Instruction::Measurement(Measurement { name: None, qubit: Qubit::Fixed(0), target: Some(mref("u", f)) }),
             5 => Instruction::Convert(Convert { destination: mref("b", f), source: mref("r", f) }),
-            _ => Instruction::Pragma(Pragma::new("NAME".into(), vec![], None)),
+            6 => Instruction::Pragma(Pragma::new("NAME".into(), vec![], None)),
+            // control flow: everything AFTER a HALT / JUMP is still type-checked; the condition of JUMP-WHEN is not
+            7 => Instruction::Jump(Jump { target: Target::Fixed("end".into()) }),
+            8 => Instruction::Label(Label { target: Target::Fixed("end".into()) }),
+            9 => Instruction::JumpWhen(JumpWhen { target: Target::Fixed("end".into()), condition: mref("u", f) }),
+            _ => Instruction::JumpWhen(JumpWhen { target: Target::Fixed("end".into()), condition: mref("r", f) }),
         },
     }
 }
@@ -243,6 +252,9 @@ fn project(i: &Instruction) -> Sexp {
                 Instruction::Measurement(_) => "measure",
                 Instruction::Convert(_) => "convert",
                 Instruction::Pragma(_) => "pragma",
+                Instruction::Jump(_) => "jump",
+                Instruction::Label(_) => "label",
+                Instruction::JumpWhen(_) => "jump_when",
                 _ => "misc",
             })],
         ),
@@ -253,32 +265,87 @@ fn verdict(p: &Program) -> Sexp {
     match type_check(p) {
         Ok(()) => tagged("ok", vec![]),
         Err(e) => {
+            // format the error every way a caller can (a panic here is a crash outcome of the case)
+            use std::error::Error as _;
+            let texts = [e.to_string(), format!("{e:#}"), format!("{e:?}"), format!("{:?}", e.source().map(|s| s.to_string()))];
+            assert!(texts[0].starts_with("In instruction "), "unexpected error text {}", texts[0]);
             let (kind, instruction) = match &e {
                 TypeError::UndefinedMemoryReference { instruction, .. } => ("undefined_memory_reference", instruction),
                 TypeError::DataTypeMismatch { instruction, .. } => ("data_type_mismatch", instruction),
                 TypeError::RealValueRequired { instruction, .. } => ("real_value_required", instruction),
                 TypeError::OperatorOperandMismatch { instruction, .. } => ("operator_operand_mismatch", instruction),
             };
-            let idx = p.body_instructions().position(|i| i == instruction);
-            match idx {
-                Some(i) => tagged("err", vec![atom(kind), nat(i as u64)]),
-                None => tagged("err", vec![atom(kind), atom("not_in_body")]),
+            // which body instruction the error names: found by the Debug rendering (independent of quil-rs's
+            // own `PartialEq`), cross-checked with `==`
+            let wanted = format!("{instruction:?}");
+            let by_debug = p.body_instructions().position(|i| format!("{i:?}") == wanted);
+            let by_eq = p.body_instructions().position(|i| i == instruction);
+            match (by_debug, by_eq) {
+                (Some(i), Some(j)) if i == j => tagged("err", vec![atom(kind), nat(i as u64)]),
+                (Some(i), _) => tagged("err", vec![atom(kind), nat(i as u64), atom("eq_disagrees")]),
+                (None, _) => tagged("err", vec![atom(kind), atom("not_in_body")]),
             }
         }
     }
 }
 
-type DeclSpec = Vec<(String, ScalarType)>;
+/// (name, type, sharing parent with an offset of another type?)
+type DeclSpec = Vec<(String, ScalarType, Option<String>)>;
+
+fn declaration(n: &str, t: ScalarType, sharing: &Option<String>, f: &dyn Fn(&str) -> String) -> Instruction {
+    // the type of a region is its OWN declared type, whatever it shares with and at whatever offsets
+    let sharing = sharing.as_ref().map(|parent| {
+        Sharing::new(f(parent), vec![Offset::new(1, ScalarType::Bit), Offset::new(2, ScalarType::Real)])
+    });
+    Instruction::Declaration(Declaration::new(f(n), Vector::new(t, 2), sharing))
+}
+
+fn all_instructions(decls: &DeclSpec, body: &[Spec], f: &dyn Fn(&str) -> String) -> Vec<Instruction> {
+    let mut v: Vec<Instruction> = decls.iter().map(|(n, t, s)| declaration(n, *t, s, f)).collect();
+    v.extend(body.iter().map(|s| build(s, f)));
+    v
+}
 
 fn program(decls: &DeclSpec, body: &[Spec], f: &dyn Fn(&str) -> String) -> Program {
     let mut p = Program::new();
-    for (n, t) in decls {
-        p.add_instruction(Instruction::Declaration(Declaration::new(f(n), Vector::new(*t, 2), None)));
-    }
-    for s in body {
-        p.add_instruction(build(s, f));
+    for i in all_instructions(decls, body, f) {
+        p.add_instruction(i);
     }
     p
+}
+
+/// definitions whose BODIES are ill-typed: `type_check` only walks the program body, so they change nothing
+fn ill_typed_definitions() -> Vec<Instruction> {
+    let id = |n: &str| n.to_string();
+    let bad = vec![
+        build(&Spec::Move("r".into(), Operand::Int(1)), &id),
+        build(&Spec::Frame(1, var("x")), &id),
+        build(&Spec::Unary(UnaryOperator::Not, "u".into()), &id),
+    ];
+    vec![
+        Instruction::CalibrationDefinition(CalibrationDefinition {
+            identifier: CalibrationIdentifier::new("X".into(), vec![], vec![], vec![Qubit::Fixed(0)]).expect("identifier"),
+            instructions: bad.clone(),
+        }),
+        Instruction::CircuitDefinition(CircuitDefinition {
+            name: "CIRC".into(),
+            parameters: vec!["x".into()],
+            qubit_variables: vec!["q".into()],
+            instructions: bad,
+        }),
+    ]
+}
+
+fn special_rename(n: &str) -> String {
+    // names that some stage of quil-rs treats specially, through the API (injective on the names used here)
+    match n {
+        "b" => "pi".into(),
+        "i" => "BIT".into(),
+        "o" => "sin".into(),
+        "r" => "REAL".into(),
+        "u" => "I".into(),
+        other => format!("Cis-{other}"),
+    }
 }
 
 fn emit(ctx: &mut Ctx, decls: &DeclSpec, body: &[Spec], perm: &[usize]) {
@@ -288,17 +355,53 @@ fn emit(ctx: &mut Ctx, decls: &DeclSpec, body: &[Spec], perm: &[usize]) {
         p.memory_regions.iter().map(|(n, r)| list(vec![st(n.clone()), atom(scalar_name(&r.size.data_type))])).collect(),
     );
     let body_sexp = list(p.body_instructions().map(project).collect());
-    let input = tagged("c30", vec![decl_sexp, body_sexp, list(perm.iter().map(|i| nat(*i as u64)).collect())]);
+    // what was DECLARED, in order and with repetitions, straight from the generator's own description
+    // (independent of what quil-rs stored): the driver checks that the stored map is "last declaration wins"
+    let declared_sexp = list(decls.iter().map(|(n, t, _)| list(vec![st(n.clone()), atom(scalar_name(t))])).collect());
+    let input = tagged(
+        "c30",
+        vec![decl_sexp, body_sexp, list(perm.iter().map(|i| nat(*i as u64)).collect()), declared_sexp],
+    );
     ctx.case(input, || {
         let permuted: Vec<Spec> = perm.iter().map(|i| body[*i].clone()).collect();
         let doubled: Vec<Spec> = body.iter().chain(body.iter()).cloned().collect();
+        // construction routes: all must give the verdict of `p`
+        let from_instructions = Program::from_instructions(all_instructions(decls, body, &id));
+        let plus = program(decls, &[], &id) + program(&vec![], body, &id);
+        let mut plus_assign = program(&vec![], body, &id);
+        plus_assign += program(decls, &[], &id);
+        let via_text = match quil_rs::quil::Quil::to_quil(&p) {
+            Ok(text) => match Program::from_str(&text) {
+                Ok(q) if q.body_instructions().map(project).collect::<Vec<_>>() == p.body_instructions().map(project).collect::<Vec<_>>()
+                    && q.memory_regions.len() == p.memory_regions.len() =>
+                {
+                    verdict(&q)
+                }
+                Ok(_) => tagged("na", vec![atom("reparsed_differently")]),
+                Err(_) => tagged("na", vec![atom("parse")]),
+            },
+            Err(_) => tagged("na", vec![atom("print")]),
+        };
+        let mut with_defs = p.clone();
+        for d in ill_typed_definitions() {
+            with_defs.add_instruction(d);
+        }
+        let first = verdict(&p);
+        let second = verdict(&p); // a second call on the same program
         tagged(
             "verdicts",
             vec![
-                verdict(&p),
+                first,
                 verdict(&program(decls, &permuted, &id)),
                 verdict(&program(decls, &doubled, &id)),
                 verdict(&program(decls, body, &rename_rot)),
+                verdict(&program(decls, body, &special_rename)),
+                verdict(&from_instructions),
+                verdict(&plus),
+                verdict(&plus_assign),
+                via_text,
+                verdict(&with_defs),
+                second,
             ],
         )
     });
@@ -306,11 +409,36 @@ fn emit(ctx: &mut Ctx, decls: &DeclSpec, body: &[Spec], perm: &[usize]) {
 
 fn std_decls() -> DeclSpec {
     vec![
-        ("b".into(), ScalarType::Bit),
-        ("i".into(), ScalarType::Integer),
-        ("o".into(), ScalarType::Octet),
-        ("r".into(), ScalarType::Real),
+        ("b".into(), ScalarType::Bit, None),
+        ("i".into(), ScalarType::Integer, None),
+        ("o".into(), ScalarType::Octet, None),
+        ("r".into(), ScalarType::Real, None),
     ]
+}
+
+/// the same four types, but every region SHARING another one of a different type (with OFFSETs of yet other
+/// types), declared in another order, plus 40 unrelated regions around them
+fn sharing_decls() -> DeclSpec {
+    let mut d: DeclSpec = (0..20).map(|k| (format!("pad{k}"), [ScalarType::Bit, ScalarType::Real][k % 2], None)).collect();
+    d.push(("r".into(), ScalarType::Real, Some("i".into())));
+    d.push(("o".into(), ScalarType::Octet, Some("r".into())));
+    d.push(("i".into(), ScalarType::Integer, Some("b".into())));
+    d.push(("b".into(), ScalarType::Bit, Some("r".into())));
+    d.extend((20..40).map(|k| (format!("pad{k}"), ScalarType::Integer, Some("r".to_string()))));
+    d
+}
+
+/// re-declarations: every region is first declared with a WRONG type, then re-declared (the last one wins)
+fn redeclared_decls() -> DeclSpec {
+    let mut d: DeclSpec = vec![
+        ("b".into(), ScalarType::Real, None),
+        ("i".into(), ScalarType::Bit, None),
+        ("o".into(), ScalarType::Integer, None),
+        ("r".into(), ScalarType::Octet, None),
+        ("u".into(), ScalarType::Real, None),
+    ];
+    d.extend(std_decls());
+    d
 }
 
 const NAMES: [&str; 5] = ["b", "i", "o", "r", "u"];
@@ -396,6 +524,25 @@ fn classical_pool(all_ops: bool) -> Vec<Spec> {
     out
 }
 
+/// literal VALUES are not the type checker's business: vary them over boundary values
+fn vary(spec: &Spec, rng: &mut Rng) -> Spec {
+    const INTS: [i64; 9] = [0, 1, -1, 3, i64::MIN, i64::MAX, 1 << 31, 1 << 32, 1 << 53];
+    const REALS: [f64; 9] = [0.0, -0.0, 1.0, 2.5, -1e308, f64::INFINITY, f64::NAN, 1e-320, 4294967296.0];
+    let mut o = |x: &Operand| match x {
+        Operand::Int(_) => Operand::Int(*rng.pick(&INTS)),
+        Operand::Real(_) => Operand::Real(*rng.pick(&REALS)),
+        Operand::Ref(n) => Operand::Ref(n.clone()),
+    };
+    match spec {
+        Spec::Arith(op, d, s) => Spec::Arith(*op, d.clone(), o(s)),
+        Spec::Cmp(op, d, l, r) => Spec::Cmp(*op, d.clone(), l.clone(), o(r)),
+        Spec::Logic(op, d, s) => Spec::Logic(*op, d.clone(), o(s)),
+        Spec::Move(d, s) => Spec::Move(d.clone(), o(s)),
+        Spec::Store(d, f, s) => Spec::Store(d.clone(), f.clone(), o(s)),
+        other => other.clone(),
+    }
+}
+
 fn leaf_alphabet_full() -> Vec<Expression> {
     vec![
         addr("b", 0),
@@ -453,12 +600,12 @@ fn corpus(ctx: &mut Ctx) {
     emit(ctx, &d, &[Spec::Other(4), Spec::Other(5), Spec::Other(3)], &[2, 0, 1]);
     // re-declaration: the last DECLARE wins (memory_regions is a map)
     let mut redecl = std_decls();
-    redecl.push(("r".into(), ScalarType::Integer));
+    redecl.push(("r".into(), ScalarType::Integer, None));
     emit(ctx, &redecl, &[Spec::Frame(1, addr("r", 0)), good1.clone()], &[1, 0]);
     // no declarations at all
     emit(ctx, &vec![], &[Spec::Frame(1, real(1.0)), Spec::Frame(1, addr("r", 0))], &[1, 0]);
     // other region names (renaming sends n to "~n")
-    let d2: DeclSpec = vec![("theta".into(), ScalarType::Real), ("ro".into(), ScalarType::Bit), ("~b".into(), ScalarType::Integer)];
+    let d2: DeclSpec = vec![("theta".into(), ScalarType::Real, None), ("ro".into(), ScalarType::Bit, None), ("~b".into(), ScalarType::Integer, None)];
     emit(ctx, &d2, &[Spec::Frame(4, addr("theta", 0)), Spec::Cmp(ComparisonOperator::LessThan, "ro".into(), "theta".into(), Operand::Ref("theta".into())), Spec::Unary(UnaryOperator::Neg, "~b".into())], &[2, 1, 0]);
 }
 
@@ -475,6 +622,16 @@ fn run(ctx: &mut Ctx) {
     // 2a. exhaustive: every single-instruction classical program over {b,i,o,r,u}, every operator
     for s in classical_pool(true) {
         emit(ctx, &d, &[s], &[0]);
+    }
+    // 2a'. the same shapes (one operator per kind) under declarations with SHARING/OFFSET (+ 40 unrelated
+    //      regions, another order) and under re-declarations (first a wrong type, then the right one)
+    for decls in [sharing_decls(), redeclared_decls()] {
+        for s in classical_pool(false) {
+            emit(ctx, &decls, &[s], &[0]);
+        }
+        for leaf in leaf_alphabet_full() {
+            emit(ctx, &decls, &[Spec::Frame(4, call(Sine, leaf))], &[0]);
+        }
     }
     // 2b. exhaustive: expressions of depth ≤ 1 over 9 leaves and EVERY operator, in each of the 5 instructions
     let full = Alphabet::full(leaf_alphabet_full());
@@ -554,7 +711,41 @@ fn run(ctx: &mut Ctx) {
                 body.push(rng.pick(&good_all).clone());
             }
         }
+        let body: Vec<Spec> = body.iter().map(|s| vary(s, &mut rng)).collect();
         let perm = random_perm(&mut rng, len);
-        emit(ctx, &d, &body, &perm);
+        match rng.below(6) {
+            0 => emit(ctx, &sharing_decls(), &body, &perm),
+            1 => emit(ctx, &redeclared_decls(), &body, &perm),
+            _ => emit(ctx, &d, &body, &perm),
+        }
+    }
+
+    // 4. long programs (33–130 instructions, beyond any small-collection fast path): well-typed except for at
+    //    most two ill-typed instructions at random positions, so that the error index is large
+    let n_long = if ctx.quick() { 150 } else { 3_000 };
+    for k in 0..n_long {
+        let len = 33 + rng.below(98) as usize;
+        let mut body: Vec<Spec> = (0..len)
+            .map(|_| {
+                if rng.chance(1, 5) {
+                    Spec::Frame(rng.below(5) as usize, random_expr(&mut rng, &real_alphabet, 2))
+                } else if rng.chance(1, 6) {
+                    Spec::Other(rng.below(N_OTHER as u64) as usize)
+                } else {
+                    rng.pick(&good_all).clone()
+                }
+            })
+            .collect();
+        for _ in 0..(k % 3) {
+            let at = rng.below(len as u64) as usize;
+            body[at] = if rng.chance(1, 3) {
+                Spec::Frame(2, random_expr(&mut rng, &full, 3))
+            } else {
+                rng.pick(&all_ops_pool).clone()
+            };
+        }
+        let perm = random_perm(&mut rng, len);
+        let decls = if k % 4 == 0 { sharing_decls() } else { d.clone() };
+        emit(ctx, &decls, &body, &perm);
     }
 }
